@@ -68,6 +68,7 @@ proof fn flags400_facts(ym: int)
     u.raw('impl TimeDelta {')
     u.stub(FT, 'num_days', 'impl TimeDelta {', cid='TimeDelta::num_days')
     u.stub(FT, 'try_days', 'impl TimeDelta {', cid='TimeDelta::try_days')
+    u.stub_all(FT, 'impl TimeDelta {', 'TimeDelta')
     u.raw('}\nimpl YearFlags {')
     u.stub(FI, 'from_year_mod_400', 'impl YearFlags {', cid='YearFlags::from_year_mod_400')
     u.raw('}\nimpl NaiveDate {')
